@@ -1,8 +1,8 @@
 \* generated by props/_handshake.py (table CFGS) -- do not edit by hand
 SPECIFICATION Spec
 CONSTANTS
-  Nodes <- NodesM
-  Conns <- ConnsM
+  Nodes = {"B", "V"}
+  Conns = {"v1"}
   Cl <- ClM
   Sv <- SvM
   Eph <- EphM
